@@ -136,6 +136,20 @@ def shapes(tier="quick", seed=0):
         op("/mc/{id}", "post", "postMc", ["mc"], [param("id", "path"), param("dry", "query", PRIMS["bool"]), param("X-H", "header")],
            {"required": True, "content": {"application/json": {"schema": ref("NewPet")}, "multipart/form-data": {"schema": obj({"file": PRIMS["binary"]})}}},
            {"200": resp_json(ref("Pet"))})], S), multi_content=True)
+    # parameter declaration orders: optional before required, in every location, on plain and on multi-content (overloaded) operations,
+    # with path-level parameters merged in front
+    ORDERED = [param("opt-q", "query", PRIMS["int"]), param("req-q", "query", PRIMS["str"], True), param("X-Opt", "header"), param("X-Req", "header", PRIMS["str"], True),
+               param("id", "path")]
+    add("param-orders", doc("PO", [
+        op("/po/{id}", "get", "getPo", ["po"], ORDERED, None, {"200": resp_json(ref("Pet"))}),
+        op("/po/{id}", "post", "postPo", ["po"], ORDERED, {"required": True, "content": {"application/json": {"schema": ref("NewPet")},
+                                                                                     "multipart/form-data": {"schema": obj({"file": PRIMS["binary"]})},
+                                                                                     "application/x-www-form-urlencoded": {"schema": obj({"a": PRIMS["str"]})}}},
+           {"200": resp_json(ref("Pet"))}),
+        op("/pv/{tenant}/{id}", "put", "putPv", ["po"], [param("opt-q", "query"), param("id", "path"), param("req-q", "query", PRIMS["str"], True)],
+           {"required": False, "content": {"application/json": {"schema": ref("NewPet")}, "multipart/form-data": {"schema": obj({"file": PRIMS["binary"]})}}},
+           {"204": {"description": "ok"}})],
+        S, path_level={"/pv/{tenant}/{id}": [param("X-Level", "header"), param("tenant", "path")]}), multi_content=True)
     add("cookie-param", doc("C", [op("/c", "get", "getC", ["c"], [param("sid", "cookie"), param("q", "query")], responses={"200": {"description": "ok"}})]), cookie=True)
     add("path-level-params", doc("PL", [op("/pl/{id}", "get", "getPl", ["pl"], [param("v", "query")], responses={"200": {"description": "ok"}}),
                                         op("/pl/{id}", "delete", "delPl", ["pl"], None, None, {"204": {"description": "ok"}})],
@@ -209,10 +223,11 @@ def shapes(tier="quick", seed=0):
                          {"Doc": obj({"t": {"type": "string", "description": "prop \"desc\"", "default": "dflt"}}, description="A doc.\n\nWith paragraphs.")},
                          info_extra={"description": "API \"desc\" with 'quotes'"}), free_text=True)
     # --- spellings of one tag on different operations (the canonical spelling must be chosen identically by endpoints, client and mocks) ---
-    SPELL = ["data sources", "DataSources", "data_sources", "dataSources", "DATA-SOURCES", "Data Sources", "datasources"]
+    SPELL = ["data sources", "DataSources", "data_sources", "dataSources", "DATA-SOURCES", "Data Sources", "datasources", "Data.Sources", "data/sources", "Data:Sources"]
     combos = [c for k in (2, 3) for c in itertools.combinations(range(len(SPELL)), k)]
     if tier == "quick":
-        combos = [combos[i] for i in (0, 5, 11, 17, 23, 30, 41, 52) if i < len(combos)]
+        # every spelling once against the PascalCase one, plus a few triples
+        combos = [(1, i) if i > 1 else (i, 1) for i in range(len(SPELL)) if i != 1] + [(0, 4, 7), (2, 8, 9), (3, 5, 6)]
     for ci, idx in enumerate(combos):
         ops_ = [op(f"/sp{j}", "get", f"spOp{j}", [SPELL[i]] if j else [SPELL[i], "other"]) for j, i in enumerate(idx)]
         add(f"tag-spelling-set-{'-'.join(map(str, idx))}", doc(f"SP{ci}", ops_), tag_variants=True)
